@@ -46,9 +46,10 @@ def setup():
     return 0 if ok else 1
 
 
-def evaluate(eng, prop, cases, impl, model, spec):
+def evaluate(eng, prop, cases, impl, model, spec, proj="default"):
     """Compare the three record streams per case.  Returns findings (judge first)."""
-    proj = eng.projector(prop)
+    if proj == "default":
+        proj = eng.projector(prop)
     findings = []
     for c, ir, mr, sr in zip(cases, impl, model, spec):
         n_ops = len(c.lines) - 1
@@ -197,6 +198,25 @@ def check(prop, tier, seed, replay=None):
                 f = Finding(Case("proof-obligation", []), "proof", 0, "; ".join(lean.problems)[:3000],
                             name=",".join(th for th, ax in lean.theorems.items() if ax is None) or "lake build")
                 violations.append((f, " no-failing-input-found"))
+            # additional harnesses over the same model and judges (e.g. the real program end to end)
+            if not violations and not replay and hasattr(eng, "extra_runs"):
+                for ex in eng.extra_runs(prop, tier, seed, wd):
+                    if ex.get("error"):
+                        f = Finding(Case(ex["name"], []), "harness", 0, ex["error"], name=ex["name"])
+                        violations.append((f, " no-failing-input-found"))
+                        continue
+                    eimpl, eerrs = core.run_cases(ex["cmd"], ex["cases"], workers=ex.get("workers"))
+                    drv = core.drv_path(eng.DRIVER)
+                    emodel = core.run_cases([drv] + eng.model_args(prop), ex["cases"])[0]
+                    espec = eng.run_trace_judge(prop, ex["cases"], eimpl) if eng.spec_args(prop) == "trace" else [None] * len(ex["cases"])
+                    efind = evaluate(eng, prop, ex["cases"], eimpl, emodel, espec, ex.get("projector"))
+                    for f in efind[:3]:
+                        f.name = ex["name"] + ": " + str(f.name)
+                        f.signature = eng.classify(prop, f)
+                        f.group = [f.case]      # not shrunk: the run is slow and timing-bound
+                        violations.append((f, "" if f.kind == "judge" else " no-failing-input-found"))
+                    cov.setdefault("extra_runs", {})[ex["name"]] = {"cases": len(ex["cases"]), "findings": len(efind),
+                                                                   "sample": ex["cases"][0].lines[:12] if ex["cases"] else []}
             cov.update(eng.coverage(prop, tier, cases, impl, model, spec))
             if errs:
                 notes.append("tool stderr (first): " + errs[0][-600:])
